@@ -233,7 +233,9 @@ def adfStep (a : AdfSt) (l : String) (ws : List String) : Option (List String ×
     some ([l, if shape == "neg" then "~ exit=0 u(a)"
               else if shape == "wide" then s!"~ exit=0 statements={d} all-true=1"
               else "~ exit=0 u(a)_T(b)"], a)
-  | ["present", _, _, _, _] => some ([l, "= ok"], a)
+  | ["present", _, _, _, _] => some ([l, "= ok", "~ accepted"], a)
+  -- ten statements `p_i ← p_i`: every one of the 2^10 total assignments is a two-valued model
+  | ["clibig", _, "twoval"] => some ([l, "~ exit=0 lines=1024 distinct=1024 wellformed=1"], a)
   | ["presented", perm, order] =>
     match parseNatList perm ",", parseNatList order "," with
     | some perm, some order =>
